@@ -412,7 +412,7 @@ std::string body_C11(Ctx& c, CaseIn& in) {
   Tape& tp = *in.rest;
   tracker().reset();
   std::string verdict;
-  bool prior_nonempty = false, prior_failed = false, prior_badsize = false;
+  bool prior_nonempty = false, prior_failed = false, prior_badsize = false, prior_newer = false;
   std::string hist;
   {
     GenCfg small = c.cfg; small.budget = 80;
@@ -430,6 +430,18 @@ std::string body_C11(Ctx& c, CaseIn& in) {
         else kind = 0;
       }
       if (kind == 0) { obj->assign(pv); hist += "assign; "; prior_failed = false; }
+      else if (kind == 1 && t.has_table && tp.below(2)) {
+        // a message from a NEWER writer: deleted entries are present on the wire and an unknown entry follows; the same
+        // destination object is decoded into again and again (a record loop)
+        bool changed = false;
+        SchemaP ws = writer_variant(*t.schema, tp, &changed);
+        Value wv = gen_value(*ws, tp, small);
+        Encoded e = ref_encode(*ws, wv);
+        auto ht = default_handle_table(*ws, wv);
+        LibRead lr = lib_read(t, e.bytes, ht, obj.get());
+        if (lr.status != 0) { verdict = fmt("history-read-failed: %s reading a message with deleted / unknown entries into a used object; history [%s]", err_name(lr.status), hist.c_str()); break; }
+        hist += "read-valid(newer writer); "; prior_failed = false; prior_newer = true;
+      }
       else if (kind == 1) {
         auto tmp = t.make(); tmp->assign(pv); Value pa = tmp->get();
         Encoded e = ref_encode(*t.schema, pa);
@@ -451,7 +463,14 @@ std::string body_C11(Ctx& c, CaseIn& in) {
       auto tmp = t.make(); tmp->assign(seed_val); Value fa = tmp->get();
       Bytes fin; std::map<int64_t, int64_t> fh;
       bool final_mutated = tp.below(3) == 0;
-      if (final_mutated) { Mutated mu = mutate(t, fa, tp, 1); fin = mu.bytes; fh = mu.handles; }
+      if (!final_mutated && t.has_table && tp.below(2)) {
+        bool changed = false;
+        SchemaP ws = writer_variant(*t.schema, tp, &changed);
+        Value wv = gen_value(*ws, tp, small);
+        fin = ref_encode(*ws, wv).bytes; fh = default_handle_table(*ws, wv);
+        hist += "final from a newer writer; ";
+      }
+      else if (final_mutated) { Mutated mu = mutate(t, fa, tp, 1); fin = mu.bytes; fh = mu.handles; }
       else { Encoded e = ref_encode(*t.schema, fa); fin = e.bytes; fh = default_handle_table(*t.schema, fa); }
       auto fresh = t.make();
       LibRead a = lib_read(t, fin, fh, fresh.get());
@@ -475,6 +494,7 @@ std::string body_C11(Ctx& c, CaseIn& in) {
   if (prior_nonempty || prior_failed || prior_badsize) c.rep.nontriv(hash_str(t.name + hist + to_text(*t.schema, in.v)));
   if (prior_failed) c.rep.label("prior-state-from-failed-read");
   if (prior_badsize) c.rep.label("prior-state-with-out-of-range-size-member");
+  if (prior_newer) c.rep.label("prior-state-from-a-newer-writers-message");
   if (prior_nonempty) c.rep.label("prior-state-differs");
   return "";
 }
